@@ -167,3 +167,29 @@ class Pow10Model:
                 out.append(z3.Implies(a <= b, self.P(a) <= self.P(b)))
                 out.append(z3.Implies(b <= a, self.P(b) <= self.P(a)))
         return out
+
+
+class UFModel:
+    """exp, log and sqrt of symbolic reals as uninterpreted functions with contract facts only:
+    exp > 0, exp monotone, exp(0) = 1;  log(x) > 0 for x > 1;  1 < sqrt(x) < x for x > 1, sqrt(x) > 0"""
+
+    def __init__(self):
+        R = z3.RealSort()
+        self.E = z3.Function("exp", R, R)
+        self.L = z3.Function("log", R, R)
+        self.S = z3.Function("sqrt", R, R)
+        self.eargs = []
+
+    def exp(self, I, x):
+        if not any(x.eq(a) for a in self.eargs):
+            self.eargs.append(x)
+            I.define(z3.And(self.E(x) > 0, z3.Implies(x <= 0, self.E(x) <= 1), z3.Implies(x >= 0, self.E(x) >= 1)))
+        return self.E(x)
+
+    def log(self, I, x):
+        I.define(z3.Implies(x > 1, self.L(x) > 0))
+        return self.L(x)
+
+    def sqrt(self, I, x):
+        I.define(z3.And(self.S(x) > 0, z3.Implies(x > 1, z3.And(self.S(x) > 1, self.S(x) < x))))
+        return self.S(x)
